@@ -7,8 +7,8 @@
 (* every event is judged and the walk continues; every event that breaks an *)
 (* obligation is printed as                                                 *)
 (*   <<"REJECTED_AT", line, "{names of the broken obligations}", facts>>     *)
-(* facts = <<selection carries extensions, selection has malformed extension *)
-(* padding, selection has an extension of an unselected frame>> (0/1).       *)
+(* facts = <<selection carries extensions, selection touches a packet with   *)
+(* malformed extension padding, 0>> (0/1).                                   *)
 (*                                                                         *)
 (* The real bytes are judged by the model's own parser: the logged header    *)
 (* bytes of every output go through Framing!Parse, the logged raw padding    *)
@@ -77,10 +77,9 @@ OutJ(e) ==
       sel   == Sel(rp, b, ee)
       has   == SelHasExt(rp, b, ee)
       bad   == SelBadExt(rp, b, ee)
-      outs  == SelExtOutside(rp, b, ee)
       plain == NeedPlain(rp, b, ee)
       upper == IF has THEN NeedUpper(rp, b, ee) ELSE plain
-      facts == <<B(has), B(bad), B(outs)>> IN
+      facts == <<B(has), B(bad), 0>> IN
   IF e.ret < 0
   THEN Res(rp, << <<"RefusedOnlyWhenMaxlenTooSmall", e.m < upper>>,
                   <<"Suff1277", e.m < 1277 * cnt>>,
@@ -92,17 +91,17 @@ OutJ(e) ==
       x  == E!ParseRaw(pd, cnt)
       xc == E!XContentsOf(pd, x.exts) IN
   Res(rp, << <<"OutFits", e.ret >= 1 /\ e.ret <= e.m>>,
-             <<"ExactSize", (~has /\ ~bad) => e.ret = plain>>,
+             <<"ExactSize", IF has THEN e.ret >= NeedLower(rp, b, ee) /\ e.ret <= upper ELSE e.ret = plain>>,
              <<"OutReparses", /\ q.ok
                               /\ q.toc \div 4 = rp.cfg
                               /\ q.sizes = SizesOf(sel)
                               /\ OutTableOK(e.fr, q, FidsOf(sel), 0)
                               /\ e.pdn = q.pad>>,
              <<"OutExtensionsWellFormed", x.ok>>,
-             <<"ExtCarried", x.ok => \A k \in 0..(cnt - 1) :
-                                LET got == Strip(E!ExtsOfFrame(xc, k))
-                                    nat == NaturalExts(rp, b, k) IN
-                                IF StartsInside(rp, b, k) /\ ~outs THEN got = nat ELSE got \in {<<>>, nat}>>,
+             \* every selected frame carries exactly the extensions its source packet gave it,
+             \* whether or not the range cuts that packet; nothing else is carried
+             <<"ExtCarried", x.ok => /\ \A k \in 0..(cnt - 1) : Strip(E!ExtsOfFrame(xc, k)) = NaturalExts(rp, b, k)
+                                     /\ Len(xc) = Len(Carried(rp, b, ee))>>,
              <<"Canary", e.can = 1>>,
              <<"GetNbFrames", e.nb = n>> >>, facts)
 
@@ -126,10 +125,10 @@ PadJ(e) ==
                                         /\ q.sizes = p.sizes
                                         /\ OutTableOK(e.ofr, q, InFids(e.fr, p.count), 0)
                                         /\ e.opdn = q.pad>>,
-             <<"PadKeepsExtensions", (e.ret = 0 /\ xin.ok) =>
+             <<"PadKeepsExtensions", (e.ret = 0 /\ e.nn > e.n) =>
                    /\ xo.ok
                    /\ E!StableSortByFrame(E!XContentsOf(po, xo.exts), p.count)
-                        = E!StableSortByFrame(E!XContentsOf(pin, xin.exts), p.count)>>,
+                        = (IF xin.ok THEN E!StableSortByFrame(E!XContentsOf(pin, xin.exts), p.count) ELSE <<>>)>>,
              <<"Canary", e.can = 1>> >>,
       <<B(Len(xin.exts) > 0), B(~xin.ok), 0>>)
 
@@ -197,8 +196,10 @@ MsPadJ(e) ==
   ELSE IF ~MsValid(w, e.S) THEN Res(rp, << <<"MsPadInvalidRefused", IF e.nn = e.n THEN e.ret <= 0 ELSE e.ret < 0>>,
                                            <<"Canary", e.can = 1>> >>, NoFacts)
   ELSE
-  LET S  == e.S
-      xin == E!ParseRaw(PadB(e.st[S].pdz, e.st[S].pd), w[S].r.count) IN
+  LET S   == e.S
+      cntS == w[S].r.count
+      pin == PadB(e.st[S].pdz, e.st[S].pd)
+      xin == E!ParseRaw(pin, cntS) IN
   Res(rp, << <<"HarnessConsistent", MsInConsistent(e, w)>>,
              <<"PadSucceeds", e.ret = 0>>,
              <<"MsPadExactPerStream", e.ret = 0 =>
@@ -211,6 +212,12 @@ MsPadJ(e) ==
                        /\ (s < S => q = w[s].r)                            \* and are unchanged
                        /\ (s = S => q.consumed = e.nn - w[s].at)          \* the last one fills the new length
                        /\ OutTableOK(e.ost[s].fr, q, InFids(e.st[s].fr, w[s].r.count), 0)>>,
+             <<"PadKeepsExtensions", (e.ret = 0 /\ e.nn > e.n /\ Len(e.ost) = S) =>
+                   LET po == PadB(e.ost[S].pdz, e.ost[S].pd)
+                       xo == E!ParseRaw(po, cntS) IN
+                   /\ xo.ok
+                   /\ E!StableSortByFrame(E!XContentsOf(po, xo.exts), cntS)
+                        = (IF xin.ok THEN E!StableSortByFrame(E!XContentsOf(pin, xin.exts), cntS) ELSE <<>>)>>,
              <<"Canary", e.can = 1>> >>,
       <<B(Len(xin.exts) > 0), B(~xin.ok), 0>>)
 
@@ -241,7 +248,7 @@ Init == l = 1 /\ rp = EmptyRp
 Next == \/ /\ l <= Len(Tr)
            /\ LET j == J(Tr[l]) IN
                 /\ rp' = j.rp
-                /\ (j.fails = {} \/ PrintT(<<"REJECTED_AT", l, ToString(j.fails), j.facts>>))
+                /\ IF j.fails = {} THEN TRUE ELSE PrintT(<<"REJECTED_AT", l, ToString(j.fails), j.facts>>)
            /\ l' = l + 1
         \/ /\ l > Len(Tr) /\ UNCHANGED <<l, rp>>
 Spec == Init /\ [][Next]_<<l, rp>>
